@@ -267,7 +267,7 @@ def large_missing_case(draw, tier):
             "entry": draw(st.sampled_from(["JACCARD", "OVERLAP", "EDIT_DISTANCE",
                                            "OVERLAP_COEFFICIENT", "size", "overlap", "prefix"])),
             "score": draw(st.booleans()), "attrs": draw(st.booleans()),
-            "n_jobs": draw(st.sampled_from([1, 1, 4, 16]))}
+            "n_jobs": draw(st.sampled_from([1, 1, 3, 7, 11, 12, 14, 16, 20]))}
 
 
 class LargeMissing(Component):
